@@ -7,7 +7,7 @@ cd "$(dirname "$0")"
 export GOFLAGS=-mod=mod GOPROXY=off
 go run . > out.tsv
 python3 cmp.py
-(cd lang && go run . 100000 > oracle.tsv)
+(cd lang && go run . 20000 > oracle.tsv)
 cut -f1 lang/oracle.tsv > /tmp/cx_sx.txt
 cut -f2 lang/oracle.tsv > /tmp/cx_exp.txt
 (cd .. && lake env lean --run gocheck/Lang.lean < /tmp/cx_sx.txt > /tmp/cx_out.txt)
